@@ -286,7 +286,10 @@ namespace ratio
     {
         if (std::any_of(f.causes.cbegin(), f.causes.cend(), [this](const auto &r)
                         { return sat->value(r->rho) == False; })) // there is no reason for introducing this flaw..
+        {
+            f.phi = FALSE_lit; // the flaw can never become active (notice that 'init' is not invoked, yet the smart-types might ask for 'phi')..
             return;
+        }
         // we initialize the flaw..
         f.init(); // flaws' initialization requires being at root-level..
         FIRE_NEW_FLAW(f);
